@@ -392,3 +392,18 @@ _targets_c02_core = targets
 
 def targets():      # noqa: F811
     return _targets_c02_core() + [target_evaluate_subcircuit()]
+
+
+_targets_c02_tlm = targets
+
+ELEMENT_MODULES = ["circuit/base", "circuit/resistor", "circuit/capacitor", "circuit/inductor", "circuit/constant_phase_element", "circuit/de_levie", "circuit/gerischer",
+                   "circuit/havriliak_negami", "circuit/kramers_kronig", "circuit/warburg", "circuit/zarc", "circuit/transmission_line_model", "circuit/functions"]
+
+
+def targets():      # noqa: F811
+    """+ the evaluation path keeps no state: the impedance a call returns is a function of the element's class, its parameter values,
+    its sub-circuits and the frequencies -- no module-level function of the element modules stores anything a later call could read
+    (a memo is accepted only under a key that holds every argument in full), and no observer method stores anything on the element"""
+    from . import purity
+    return _targets_c02_tlm() + [purity.target_modules(ELEMENT_MODULES, "element modules keep no state between evaluations"),
+                                 purity.target_observers(["circuit/base", "circuit/transmission_line_model"], "element observers keep no state")]
